@@ -1,7 +1,9 @@
 import TypstyleModel.Proofs.Range
+import TypstyleModel.Proofs.Tokens
 /-! C13 — range formatting is safe to splice (selection, covering and refusal parts; the splice
 equivalence needs the parser and is searched, not proved). -/
 namespace Typstyle
+open Pretty
 
 theorem sum_sublist_le {l₁ l₂ : List Nat} (h : l₁.Sublist l₂) : l₁.sum ≤ l₂.sum := by
   induction h with
@@ -23,6 +25,31 @@ theorem C13_trimmed_range_ordered (text : List Char) (s e : Nat) :
   simp only
   constructor <;> omega
 
+/-- The conversion stage returns the covering node: its start offset, its length, and the family
+printed for exactly that node (annotated). -/
+theorem formatRangeDoc_ok (cfg : Config) (wd : String → Nat) (src : String) (root : ENode) (a b : Nat)
+    (t : ANode) (off len : Nat) (d : Twin.Doc) (indent : Nat)
+    (h : formatRangeDoc cfg wd src root a b = .ok t off len d indent) :
+    ∃ n mode,
+      cover (trimRange src.toList (min a src.utf8ByteSize) (min b src.utf8ByteSize)).1
+        (min (trimRange src.toList (min a src.utf8ByteSize) (min b src.utf8ByteSize)).2 src.utf8ByteSize)
+        root 0 .markup = some (n, off, mode)
+      ∧ n.erroneous = false ∧ t = prepare n.toNode ∧ len = n.len := by
+  unfold formatRangeDoc at h
+  simp only at h
+  split at h
+  · cases h
+  · rename_i n off' mode hcov
+    split at h
+    · cases h
+    · rename_i herr
+      split at h
+      · cases h
+      · rename_i d' k hrun
+        simp only [RangeDoc.ok.injEq] at h
+        obtain ⟨rfl, rfl, rfl, _, _⟩ := h
+        exact ⟨n, mode, hcov, by simpa using herr, rfl, rfl⟩
+
 /-- T13.2: when range formatting returns text, the returned range is the range of a node of the
 tree (a Markup, expression or pattern), it contains the trimmed, clamped request, and that node has
 no syntax errors. -/
@@ -32,19 +59,15 @@ theorem C13_returned_range_covers_request (cfg : Config) (wd : String → Nat) (
     start ≤ r.1 ∧ min r.2 src.utf8ByteSize ≤ stop ∧ stop ≤ root.len := by
   intro r
   unfold formatRange at h
-  simp only at h
   split at h
   · cases h
-  · rename_i n off mode hcov
-    split at h
-    · cases h
-    · split at h
-      · cases h
-      · rename_i d k hrun
-        simp only [RangeResult.ok.injEq] at h
-        obtain ⟨rfl, rfl, _⟩ := h
-        have := cover_spec _ _ root 0 .markup n off mode hcov
-        exact ⟨this.1, this.2.1, by simpa using this.2.2.2.2⟩
+  · cases h
+  · rename_i t off len d indent hdoc
+    simp only [RangeResult.ok.injEq] at h
+    obtain ⟨rfl, rfl, _⟩ := h
+    obtain ⟨n, mode, hcov, _, _, rfl⟩ := formatRangeDoc_ok cfg wd src root a b t _ _ d indent hdoc
+    have := cover_spec _ _ root 0 .markup n _ mode hcov
+    exact ⟨this.1, this.2.1, by simpa using this.2.2.2.2⟩
 
 /-- T13.3: an erroneous covering node is refused, never formatted. -/
 theorem C13_erroneous_node_is_refused (cfg : Config) (wd : String → Nat) (src : String) (root : ENode) (a b : Nat)
@@ -53,8 +76,34 @@ theorem C13_erroneous_node_is_refused (cfg : Config) (wd : String → Nat) (src 
               (min (trimRange src.toList (min a src.utf8ByteSize) (min b src.utf8ByteSize)).2 src.utf8ByteSize)
               root 0 .markup = some (n, off, mode))
     (herr : n.erroneous = true) : formatRange cfg wd src root a b = .refused := by
-  unfold formatRange
+  unfold formatRange formatRangeDoc
   simp only [hcov, herr, if_true]
+
+/-- T13.4 (the replacement text carries what the replaced node carried, by construction): when the
+family printed for the covering node is certified (`rangeCertified`, evaluated on every range case of
+the correspondence run, field `rcert`), then every layout of the returned document — at any width,
+any indent unit, and with the extra indentation of the line the range starts on — contains exactly the
+code tokens, comments, prose, literals and verbatim text of that node, in order.  Splicing it in place
+of the node therefore neither adds nor loses any of them in the whole document. -/
+theorem C13_replacement_carries_the_node (reorder : Bool) (t : ANode) (d : Twin.Doc)
+    (h : rangeCertified reorder t d = true) (u indent : Nat) (m : Mode) (xs : List Atom)
+    (hl : Lay m ((d.fam u).nst indent) xs) :
+    (reorder = false → tokText xs = (specToks t).toList) ∧ cmtText xs = (specCmts t).toList ∧
+    proseText xs = (specProse t).toList ∧ (reorder = false → litText xs = (specLit t).toList) ∧
+    verbText xs = (specVerb t).toList := by
+  simp only [rangeCertified, Bool.and_eq_true, Bool.or_eq_true, beq_iff_eq] at h
+  obtain ⟨⟨⟨⟨⟨hg, ht⟩, hc⟩, hp⟩, hli⟩, hv⟩ := h
+  have e := fun c => Pretty.EmitsS.nst (n := indent) (d.emits hg u c) m xs hl
+  refine ⟨fun hr => ?_, ?_, ?_, fun hr => ?_, ?_⟩
+  · rcases ht with ht | ht
+    · simp [hr] at ht
+    · rw [← ht]; exact e .tok
+  · rw [← hc]; exact e .cmt
+  · rw [← hp]; exact e .prose
+  · rcases hli with hli | hli
+    · simp [hr] at hli
+    · rw [← hli]; exact e .lit
+  · rw [← hv]; exact e .verb
 
 /-- No request is out of range: a range ending past the text is clamped before anything is sliced
 (the model has no partial operation here; the panic of the unrepaired code is finding F3). -/
